@@ -578,49 +578,72 @@ def viewOfController (conn : ConnEnc) (c : Controller) : R TView := do
     pure { c2v := a.c2v, opp := t.opp, seam := a.edgeSeam, lm := a.lm, isAtt := true, numFaces := t.numFaces }
   else pure t.view
 
+/-- the parent attribute after the sequential encoder `s` produced its portable values `pt` -/
+def parentAfter (g : Geometry) (anyNeedsParent : Bool) (posId : Option Nat) (pointIds : Array Nat) (s : SeqEncSt)
+    (pt : Array Int × Bytes) (parent : Option ParentAtt) : R (Option ParentAtt) :=
+  if anyNeedsParent && some s.attId == posId then do
+    let a := g.atts.toArray[s.attId]!
+    let m ← parentMap a g.numPoints pointIds
+    pure (some { kind := s.kind, numComponents := a.numComponents, dataType := a.dataType, map := m, values := pt.1 })
+  else pure parent
+
+/-- `GenerateSequence` of an attribute encoder on its view -/
+def sequenceOfController (g : Geometry) (conn : ConnEnc) (c : Controller) (view : TView) : R SeqOut :=
+  let faces : Array Nat := (flattenFaces g.faces).toArray
+  let v2dInit := Array.replicate view.numVertices inv
+  if c.traversalMethod == Generated.MESH_TRAVERSAL_PREDICTION_DEGREE.toNat
+  then maxPredictionDegreeOrder view faces conn.processed v2dInit
+  else depthFirstOrder view faces conn.processed v2dInit
+
+/-- `TransformAttributesToPortableFormat` over the sequential encoders of one attribute encoder: portable values and
+    transform bytes of each, and the parent attribute (the portable POSITION attribute) once it has been produced -/
+def portablePass (o : EbOpts) (g : Geometry) (anyNeedsParent : Bool) (posId : Option Nat) (pointIds : Array Nat) :
+    List SeqEncSt → Option ParentAtt → R (List (Array Int × Bytes) × Option ParentAtt)
+  | [], parent => pure ([], parent)
+  | s :: ss, parent => do
+    let a := g.atts.toArray[s.attId]!
+    let rows ← rowsAt a pointIds
+    let pt ← portableOf o a s rows
+    let parent' ← parentAfter g anyNeedsParent posId pointIds s pt parent
+    let (rest, pfin) ← portablePass o g anyNeedsParent posId pointIds ss parent'
+    pure (pt :: rest, pfin)
+
+/-- `EncodePortableAttributes` of one sequential encoder -/
+def encodeItem (ch : EbChoices) (o : EbOpts) (g : Geometry) (e : Nat) (mdata : MeshData) (pointIds : Array Nat)
+    (parent : Option ParentAtt) (s : SeqEncSt) (pt : Array Int × Bytes) : R EncItem := do
+  let a := g.atts.toArray[s.attId]!
+  if s.kind == 0 then
+    let rows ← rowsAt a pointIds
+    pure { attId := s.attId, kind := 0, valueBytes := rows.flatten, trBytes := pt.2 }
+  else
+    let nc := if s.kind == 3 then 2 else a.numComponents
+    let (sch, vb) ← encodeIntegerValuesEb ch o.base s.attId s.kind nc a.numValues s.scheme mdata pointIds parent pt.1
+    pure { attId := s.attId, kind := s.kind, portable := pt.1, valueBytes := vb, trBytes := pt.2, scheme := sch,
+           block := some { ctrl := e, attId := s.attId, kind := s.kind, nc, numValues := a.numValues,
+                           scheme := s.scheme, md := mdata, pointIds, parent, portable := pt.1,
+                           outScheme := sch, bytes := vb } }
+
+/-- `EncodePortableAttributes` over the sequential encoders -/
+def encodePass (ch : EbChoices) (o : EbOpts) (g : Geometry) (e : Nat) (mdata : MeshData) (pointIds : Array Nat)
+    (parent : Option ParentAtt) : List SeqEncSt → List (Array Int × Bytes) → R (List EncItem)
+  | s :: ss, pt :: pts => do
+    let it ← encodeItem ch o g e mdata pointIds parent s pt
+    let rest ← encodePass ch o g e mdata pointIds parent ss pts
+    pure (it :: rest)
+  | _, _ => pure []
+
 /-- `EncodeAttributes` of one attribute encoder: `GenerateSequence`, `TransformAttributesToPortableFormat`,
     `EncodePortableAttributes`; `parent` = the parent attribute known so far -/
 def encodeController (ch : EbChoices) (o : EbOpts) (g : Geometry) (conn : ConnEnc) (cs : Array Controller)
     (anyNeedsParent : Bool) (posId : Option Nat) (e : Nat) (parent : Option ParentAtt) : R CtrlOut := do
-  let atts := g.atts.toArray
-  let faces : Array Nat := (flattenFaces g.faces).toArray
   let c := cs[e]!
   -- GenerateSequence
   let view ← viewOfController conn c
-  let v2dInit := Array.replicate view.numVertices inv
-  let seq ←
-    if c.traversalMethod == Generated.MESH_TRAVERSAL_PREDICTION_DEGREE.toNat
-    then maxPredictionDegreeOrder view faces conn.processed v2dInit
-    else depthFirstOrder view faces conn.processed v2dInit
+  let seq ← sequenceOfController g conn c view
   let mdata : MeshData := { t := view, d2c := seq.d2c, v2d := seq.v2d }
-  -- TransformAttributesToPortableFormat
-  let mut parent := parent
-  let mut pts : Array (Array Int × Bytes) := #[]
-  for s in c.encs do
-    let a := atts[s.attId]!
-    let rows ← rowsAt a seq.pointIds
-    let pt ← portableOf o a s rows
-    pts := pts.push pt
-    if anyNeedsParent && some s.attId == posId then
-      parent := some { kind := s.kind, numComponents := a.numComponents, dataType := a.dataType,
-                       map := ← parentMap a g.numPoints seq.pointIds, values := pt.1 }
-  -- EncodePortableAttributes
-  let mut items : Array EncItem := #[]
-  for k in [0:c.encs.size] do
-    let s := c.encs[k]!
-    let a := atts[s.attId]!
-    let (portable, tb) := pts[k]!
-    if s.kind == 0 then
-      let rows ← rowsAt a seq.pointIds
-      items := items.push { attId := s.attId, kind := 0, valueBytes := rows.flatten, trBytes := tb }
-    else
-      let nc := if s.kind == 3 then 2 else a.numComponents
-      let (sch, vb) ← encodeIntegerValuesEb ch o.base s.attId s.kind nc a.numValues s.scheme mdata seq.pointIds parent portable
-      items := items.push { attId := s.attId, kind := s.kind, portable, valueBytes := vb, trBytes := tb, scheme := sch,
-                            block := some { ctrl := e, attId := s.attId, kind := s.kind, nc, numValues := a.numValues,
-                                            scheme := s.scheme, md := mdata, pointIds := seq.pointIds, parent, portable,
-                                            outScheme := sch, bytes := vb } }
-  pure { ctrl := e, view, seq, items, parent }
+  let (pts, parent) ← portablePass o g anyNeedsParent posId seq.pointIds c.encs.toList parent
+  let items ← encodePass ch o g e mdata seq.pointIds parent c.encs.toList pts
+  pure { ctrl := e, view, seq, items := items.toArray, parent }
 
 /-- `EncodeAllAttributes`: the attribute encoders in stream order, the parent attribute handed on -/
 def encodeControllers (ch : EbChoices) (o : EbOpts) (g : Geometry) (conn : ConnEnc) (cs : Array Controller)
